@@ -164,6 +164,17 @@ def family_e3():
             tb = jwire.f_bytes(4, tb) + tail               # wrap as s_triple_term
         row = jwire.f_bytes(2, tb)                          # RdfStreamRow.triple
         yield "deep-nesting", jwire.write_delimited([jwire.enc_frame([orow, row])])
+    for sizes in ((4096, 4096, 4096), (4096, 4096, 0), (4096, 0, 4096), (4000, 150, 32)):
+        o = jwire.mkrow("options", {**opts, "max_name_table_size": sizes[0],
+                                    "max_prefix_table_size": sizes[1],
+                                    "max_datatype_table_size": sizes[2]})
+        tr0 = jwire.mkrow("triple", {"s": ("bnode", "a"), "p": ("bnode", "b"), "o": ("bnode", "c")})
+        yield "legal-maximum-tables", jwire.write_delimited([jwire.enc_frame([o, tr0])])
+        yield "legal-maximum-tables", jwire.enc_frame([o, tr0])
+    one = jwire.write_delimited([jwire.enc_frame([orow])])
+    for n in (1_000_000, 3_000_000):
+        yield "continuation-bytes", b"\xff" * n
+        yield "continuation-bytes", one + b"\x80" * n
     yield "continuation-bytes", b"\x80" * 100_000
     yield "continuation-bytes", b"\x0a" + b"\xff" * 100_000
     yield "empty-frames", b"\x00" * 10_000
